@@ -46,7 +46,7 @@ def draw_policy(rng, P):
 def fixture_configs(tier):
     S = configs.SHIPPED
     if tier == 'quick':
-        lst = [('core_maths', 3), ('osc_maths', 3), ('core_maths', 1)]
+        lst = [('core_maths', 3), ('osc_maths', 3), ('core_maths', 1), ('core_maths', 2)]
     else:
         lst = [('core_maths', 3), ('core_maths', 4), ('osc_maths', 3), ('base_e_maths', 3), ('ext_maths', 3), ('core_maths', 2), ('core_maths', 1)]
     return [dict(runname=n, basis=None, compl=c, nfun=configs.nfun(S[n], c)) for n, c in lst]
@@ -72,6 +72,10 @@ def draw_fit(seed, i, fixtures, tier):
         like['fn_set'] = fx['runname']
     opts = dict(test_all=dict(Niter_params=rng.choice([[2], [3], [2, 1]]), Nconv_params=[rng.choice([1, 2])],
                               log_opt=rng.random() < 0.3))
+    have = {(f['runname'], f['compl']) for f in fixtures}
+    if fx.get('lib') and all((fx['runname'], c) in have for c in range(1, fx['compl'])) and rng.random() < 0.3:
+        # rank 0 writes previous_eqns_<n>.txt into the library directory, every rank reads it while fitting
+        opts['test_all']['ignore_previous_eqns'] = True
     return dict(runname=fx['runname'], compl=fx['compl'], lib_src=fx['lib'], like=like, opts=opts, P=P, seed=rs,
                 policy=draw_policy(rng, P), eager=rng.choice([0.0, 0.2, 0.5, 0.8, 1.0]), root_copy=rng.random() < 0.25,
                 data_seed=rs % 100003, npts=rng.randint(20, 40), npseed=rs % 9973, run_seed=rs, nuniq=fx['nuniq'], synth_seed=rs % 977)
@@ -99,7 +103,7 @@ def main(tier, seed, budget):
     quick = tier == 'quick'
     explore_s = budget or (150 if quick else 1500)
     fixroot = '%s/esrsim-fix-c14-%d' % (scratch_root(), os.getpid())
-    stats = dict(fit_worlds=0, tile_worlds=0, tile_cases=0, by_P={}, by_like={}, by_policy={}, events=0, rdigests=set(),
+    stats = dict(ipe_worlds=0, fit_worlds=0, tile_worlds=0, tile_cases=0, by_P={}, by_like={}, by_policy={}, events=0, rdigests=set(),
                  nontrivial=set(), P_gt_U=0, P_ge_11=0, rows_checked=0, cmp_runs=0, tile_pairs=set())
     samples = []
     selftest = {}
@@ -157,6 +161,7 @@ def main(tier, seed, budget):
                         stats['nontrivial'].add(('tile', a['P'], tuple(a['Ns']), r['rdigest']))
                 else:
                     stats['fit_worlds'] += 1
+                    stats['ipe_worlds'] += int(bool((a.get('opts') or {}).get('test_all', {}).get('ignore_previous_eqns')))
                     stats['by_like'][a['like']['cls']] = stats['by_like'].get(a['like']['cls'], 0) + 1
                     stats['P_gt_U'] += int(a['P'] > (a.get('nuniq') or 0))
                     stats['P_ge_11'] += int(a['P'] >= 11)
@@ -213,7 +218,7 @@ def main(tier, seed, budget):
         samples=samples, fit_worlds=stats['fit_worlds'], tile_worlds=stats['tile_worlds'], tile_cases=stats['tile_cases'],
         tile_distinct_N_P_pairs=len(stats['tile_pairs']), tile_sweep_complete_N_le_64_P_le_16=not quick,
         worlds_by_P=stats['by_P'], worlds_by_policy=stats['by_policy'], worlds_by_likelihood=stats['by_like'],
-        fit_worlds_with_more_ranks_than_unique_functions=stats['P_gt_U'], fit_worlds_with_P_ge_11=stats['P_ge_11'],
+        fit_worlds_with_more_ranks_than_unique_functions=stats['P_gt_U'], fit_worlds_with_P_ge_11=stats['P_ge_11'], fit_worlds_with_ignore_previous_eqns=stats['ipe_worlds'],
         output_rows_recomputed=stats['rows_checked'], one_rank_reruns_compared=stats['cmp_runs'],
         seam_events=stats['events'], runs_per_hour=round(3600.0 * nw / max(wall, 1e-9)),
         fault_kinds={'F1 interleaving choice': stats['events'], 'F5 rank count': nw}, selftest=selftest,
